@@ -248,3 +248,19 @@ def c16_extra(Job, tier):
     return [Job("D_connect_drives_%s" % cfg[0], "harness/dfs_storage.c", "h_connect", enforce=["connect_drives"],
                 replace=["check_sequence_fits", "SurfaceSelector_next"], loops=True, defines=list(cfg[1]),
                 extract=ext(STORAGE_GROUP + ["connect_drives"]), tier="quick", cover=True, solver="portfolio", timeout=900)]
+
+
+# ---- C17 extra: Opus volume extents ----------------------------------------------------------------------------
+OPUS_GROUP = ["VolumeLocation_set_next_sector", "VolumeLocation_len", "VolumeLocation_start_sector"]
+
+
+def opus_jobs(Job, cfg=CFG_NDEBUG, tier="quick"):
+    def J(name, entry, enforce, **kw):
+        return Job("D_%s_%s" % (name, cfg[0]), "harness/dfs_opus.c", entry, enforce=enforce, defines=list(cfg[1]),
+                   extract=ext(OPUS_GROUP), tier=tier, **kw)
+    return [J("volume_set_next_sector", "h_set_next", ["VolumeLocation_set_next_sector"]),
+            J("volume_len", "h_len", ["VolumeLocation_len"]), J("volume_start_sector", "h_start", ["VolumeLocation_start_sector"])]
+
+
+def c17_extra(Job, tier):
+    return opus_jobs(Job) + fileio_jobs(Job)[1:4]
